@@ -43,17 +43,19 @@ theorem honest_accept_binds (hash : A → A → Int) (g h : A) (value a b : Int)
   · simp at hc
   · split at hc
     · simp at hc
-    · simp only [Option.some.injEq, Prod.mk.injEq] at hc
-      obtain ⟨rfl, _⟩ := hc
-      simp only [rangeCommit, rangeCommitWith, pow_ofAdd, ofAdd_mul, ofAdd_div] at e
-      obtain ⟨e1, e2⟩ := e
-      constructor
-      · have h3 : (a - 1) • g = (a' - 1) • g := sub_right_injective e1
-        have : (a - a') • g = (a - 1) • g - (a' - 1) • g := by module
-        rw [this, h3, sub_self]
-      · have h3 : (b + 1) • g = (b' + 1) • g := sub_left_injective e2
-        have : (b - b') • g = (b + 1) • g - (b' + 1) • g := by module
-        rw [this, h3, sub_self]
+    · split at hc
+      · simp at hc
+      · simp only [Option.some.injEq, Prod.mk.injEq] at hc
+        obtain ⟨rfl, _⟩ := hc
+        simp only [rangeCommit, rangeCommitWith, pow_ofAdd, ofAdd_mul, ofAdd_div] at e
+        obtain ⟨e1, e2⟩ := e
+        constructor
+        · have h3 : (a - 1) • g = (a' - 1) • g := sub_right_injective e1
+          have : (a - a') • g = (a - 1) • g - (a' - 1) • g := by module
+          rw [this, h3, sub_self]
+        · have h3 : (b + 1) • g = (b' + 1) • g := sub_left_injective e2
+          have : (b - b') • g = (b + 1) • g - (b' + 1) • g := by module
+          rw [this, h3, sub_self]
 
 /-- The positivity test is the only thing between a prover who knows a multiple n of the order of g and acceptance:
     for ANY value (inside or outside [a, b]) the prover that follows the algebra with
